@@ -251,7 +251,7 @@ def gen_thr(rng, d):
     vals = [dy(rng, -8, 24, 16) for _ in range(npx)]
     mask = None if rng.random() < 0.4 else [rng.random() < 0.6 for _ in range(npx)]
     het = rng.random() < 0.6
-    as_float = mask is None and rng.random() < 0.3  # return_float only changes the dtype of the unmasked result
+    as_float = rng.random() < 0.4  # return_float may change the dtype, never the selection - with or without a mask
     lab = np.array([label_values[l] for l in labs]).reshape(shape)
     sig = np.array([float(v) for v in vals]).reshape(shape)
     if het:
@@ -277,8 +277,8 @@ def gen_thr(rng, d):
         impl = repr(out)
     else:
         out = np.asarray(out)
-        if as_float and out.dtype.kind != "f" or not as_float and out.dtype != bool or not np.all((out == 0) | (out == 1)):
-            impl = "!dtype"
+        if out.dtype.kind not in "fbiu" or not np.all((out == 0) | (out == 1)):
+            impl = "!values"
         else:
             impl = "!shape" if out.shape != shape else " ".join("1" if b else "0" for b in out.ravel())
     # the statement itself, evaluated directly
@@ -287,7 +287,7 @@ def gen_thr(rng, d):
         a = lo[l] if het else lo
         b = None if hi is None else (hi[l] if het else hi)
         want.append(a < v and (b is None or v < b) and (mask is None or mask[i]))
-    return line, impl, dict(want=" ".join("1" if b else "0" for b in want), shape=shape, het=het)
+    return line, impl, dict(want=" ".join("1" if b else "0" for b in want), shape=shape, het=het, return_float=as_float, masked=mask is not None)
 
 
 # ---------------------------------------------------------------------------
@@ -347,7 +347,24 @@ def tabulate_dispatch(d):
     return tab, subsets
 
 
-def emit(poly, sizes, disp, subsets):
+NEAR_MAX = 10
+
+
+def tabulate_nearest():
+    """index maps of cv2.resize(INTER_NEAREST) along columns and along rows, for all sizes n -> N up to NEAR_MAX"""
+    import cv2
+
+    tab = []
+    for n in range(1, NEAR_MAX + 1):
+        for N in range(1, NEAR_MAX + 1):
+            a = np.arange(n, dtype=np.int32)
+            cols = call(lambda: cv2.resize(a.reshape(1, n), (N, 1), interpolation=cv2.INTER_NEAREST)[0].tolist())
+            rows = call(lambda: cv2.resize(a.reshape(n, 1), (1, N), interpolation=cv2.INTER_NEAREST)[:, 0].tolist())
+            tab.append((n, N, [] if isinstance(cols, Raised) else cols, [] if isinstance(rows, Raised) else rows))
+    return tab
+
+
+def emit(poly, sizes, disp, subsets, near=()):
     L = ["import DarsiaModel.SignalModels", "namespace Darsia.Gen", "open Darsia Darsia.Sig", ""]
     L.append(f"def polyDegrees : List Nat := [{', '.join(str(k) for k in sorted(poly))}]")
     L.append("/-- exponents of basis function k of PolynomialApproximationSpace(d), decoded from basis((2,3), k); `none`: undecodable -/")
@@ -377,7 +394,10 @@ def emit(poly, sizes, disp, subsets):
     for kind in KINDS:
         r = disp[(kind, "all")]
         L.append(f"  | .{kind} => " + (f".error .{r.cls}" if isinstance(r, Raised) else (".ok none" if r is None else f".ok (some {r})")))
-    L += ["", "end Darsia.Gen"]
+    L += ["", "/-- (n, N, source index per destination index along columns, along rows) of cv2.resize INTER_NEAREST -/",
+          "def nearTable : List (Nat × Nat × List Nat × List Nat) := ["]
+    L.append(",\n".join(f"  ({n}, {N}, {c}, {r})" for n, N, c, r in near))
+    L += ["]", "", "end Darsia.Gen"]
     return "\n".join(L) + "\n"
 
 
@@ -569,8 +589,10 @@ def oracle_threshold(ctx, d, thr_cases):
     for line, impl, info in thr_cases:
         ctx.count(("thr", line))
         if "want" in info and impl != info["want"]:
-            ctx.fail(f"C14:StaticThresholdModel.__call__({'het' if info['het'] else 'hom'})", "result is not `strictly between the bounds, inside the mask`",
-                     {"line": line, "observed": impl, "required": info["want"]})
+            opt = ",return_float" if info.get("return_float") else ""
+            opt += ",mask" if info.get("masked") else ""
+            ctx.fail(f"C14:StaticThresholdModel.__call__({'het' if info['het'] else 'hom'}{opt})", "result is not `strictly between the bounds, inside the mask`",
+                     {"line": line, "return_float": info.get("return_float"), "mask_given": info.get("masked"), "observed": impl, "required": info["want"]})
 
 
 def oracle_poly(ctx, d, poly, sizes):
@@ -969,6 +991,167 @@ def oracle_kernel_parameters(ctx, d):
                      {"dofs": dofs, "observed": repr(out), "exception": str(getattr(out, 'exc', ''))[:120]})
 
 
+# ---------------------------------------------------------------------------
+# wrapper HeterogeneousModel, label maps of another shape (cv2 nearest), the isclose boundary of ScalingModel
+
+
+def boundary_scalings():
+    """the floats adjacent to the boundaries 1 +- (1e-8 + 1e-5) of the model's guard: (inside, outside) above and below 1"""
+    import math
+
+    tau = Fraction(1001, 10**8)
+    k = math.floor(tau * 2**52)
+    k2 = math.floor(tau * 2**53)
+    return [(1 + k / 2**52, True), (1 + (k + 1) / 2**52, False), (1 - k2 / 2**53, True), (1 - (k2 + 1) / 2**53, False)]
+
+
+def wrapper_resize_boundary(ctx, d):
+    rng = ctx.rng
+    lines, impl = [], []
+    # (1) generic wrapper with one (homogeneous) model per label
+    for _ in range(ctx.pick(40, 400)):
+        L = rng.randint(1, 5)
+        models = []
+        while len(models) < L:
+            m = gen_models(rng, 1, 1)[0]
+            if m[0] != "het":
+                models.append(m)
+        shape = (rng.randint(1, 3), rng.randint(2, 4))
+        while shape[0] * shape[1] < L:
+            shape = (shape[0] + 1, shape[1])
+        npx = shape[0] * shape[1]
+        labs = list(range(L)) + [rng.randrange(L) for _ in range(npx - L)]
+        rng.shuffle(labs)
+        label_values = sorted(rng.sample(range(0, 40), L))
+        pix = [(l, dy(rng, -32, 32, 16)) for l in labs]
+        lines.append(f"wrap {L} " + " ".join(tok_model(m) for m in models) + f" | {npx} " + " ".join(f"{l} {fmt(v)}" for l, v in pix))
+        lab = np.array([label_values[l] for l in labs]).reshape(shape)
+        sig = np.array([float(v) for _, v in pix]).reshape(shape)
+        hm = call(d.HeterogeneousModel, d.LinearModel(), d.Image(lab, dimensions=[1.0, 1.0], scalar=True))
+        if isinstance(hm, Raised):
+            impl.append(repr(hm))
+            continue
+        for i, l in enumerate(np.unique(lab)):
+            hm.obj[l] = build(d, models[i], lab)
+        out = call(hm, sig.copy())
+        impl.append(repr(out) if isinstance(out, Raised) else ("!shape" if np.asarray(out).shape != shape else fmts(np.asarray(out).ravel())))
+    ctx.correspond("heterogeneous-wrapper", lines, impl)
+
+    # (2) label maps of another shape: the label map in force is read off the output (scaling = position of the label + 2, signal = 1)
+    lines, impl = [], []
+    for t in range(ctx.pick(40, 300)):
+        h, w, H, W = (rng.randint(1, NEAR_MAX) for _ in range(4))
+        if t % 5 == 0:
+            H, W = h, w
+        L = rng.randint(1, 4)
+        label_values = sorted(rng.sample(range(0, 40), L))
+        lab = np.array([rng.choice(label_values) for _ in range(h * w)], dtype=rng.choice([np.uint8, np.int32, np.int64])).reshape(h, w)
+        uniq = np.unique(lab)
+        lines.append(f"resize {h} {w} {H} {W} " + " ".join(str(int(v)) for v in lab.ravel()))
+        m = call(d.HeterogeneousLinearModel, lab, scaling=[float(i + 2) for i in range(len(uniq))], offset=[0.0] * len(uniq))
+        out = m if isinstance(m, Raised) else call(m, np.ones((H, W)))
+        if isinstance(out, Raised) or np.asarray(out).shape != (H, W):
+            impl.append(repr(out) if isinstance(out, Raised) else "!shape")
+            continue
+        dec = np.asarray(out)
+        if not np.all((dec >= 2) & (dec < len(uniq) + 2) & (dec == np.round(dec))):
+            impl.append("!values")
+            continue
+        rows = [" ".join(str(int(uniq[int(v) - 2])) for v in row) for row in dec]
+        impl.append(" ; ".join(rows))
+        # state: a later signal of the original shape gets the original labels again
+        lines.append(f"resize {h} {w} {h} {w} " + " ".join(str(int(v)) for v in lab.ravel()))
+        back = call(m, np.ones((h, w)))
+        impl.append(repr(back) if isinstance(back, Raised) else " ; ".join(" ".join(str(int(uniq[int(v) - 2])) for v in row) for row in np.asarray(back)))
+    # call sequences on one instance: the model predicts the label map in force at the LAST call
+    for _ in range(ctx.pick(30, 200)):
+        lab, shapes, _, _ = label_sequence_case(rng)
+        if rng.random() < 0.5:
+            shapes = shapes[:-1] + [(rng.randint(1, NEAR_MAX), rng.randint(1, NEAR_MAX))]
+        laba = np.array(lab, dtype=np.int32)
+        uniq = np.unique(laba)
+        lines.append(f"labelseq {laba.shape[0]} {laba.shape[1]} " + " ".join(str(int(v)) for v in laba.ravel()) + f" | {len(shapes)} " + " ".join(f"{a} {b}" for a, b in shapes))
+        m = call(d.HeterogeneousLinearModel, laba.copy(), scaling=[float(i + 2) for i in range(len(uniq))], offset=[0.0] * len(uniq))
+        out = m
+        for shp in shapes:
+            if isinstance(out, Raised):
+                break
+            out = call(m, np.ones(shp))
+        if isinstance(out, Raised) or np.asarray(out).shape != tuple(shapes[-1]):
+            impl.append(repr(out) if isinstance(out, Raised) else "!shape")
+            continue
+        dec = np.asarray(out)
+        ok = np.all((dec >= 2) & (dec < len(uniq) + 2) & (dec == np.round(dec)))
+        impl.append(" ; ".join(" ".join(str(int(uniq[int(v) - 2])) for v in row) for row in dec) if ok else "!values")
+    ctx.correspond("label-map-resize", lines, impl)
+
+    # (3) the isclose boundary of ScalingModel: the two floats next to either boundary, signals +-2^j (exact products)
+    ok = True
+    cases = []
+    for sval, inside in boundary_scalings():
+        if bool(np.isclose(sval, 1.0)) != inside:
+            ok = False
+            ctx.mark("TIE-BROKEN", {"isclose": "np.isclose(s, 1.0) disagrees with the model's guard |s-1| <= 1e-8 + 1e-5 next to the boundary", "s": repr(sval)})
+        pix = [(0, Fraction(sg * 2**j)) for j in (-3, 0, 2, 5) for sg in (1, -1)]
+        cases.append(Case("single", [("scaling", Fraction(sval))], None, pix, [0], (2, 4)))
+        cases.append(Case("comb", [("scaling", Fraction(sval)), ("clip", Fraction(-100), Fraction(100))], None, pix, [0], (8,)))
+    ctx.correspond("scaling-isclose-boundary", [c.line() for c in cases], [c.run_impl(d) for c in cases])
+    ctx.cov["isclose_boundary"] = {"floats_adjacent_to_boundary_agree_with_guard": ok, "scalings": [repr(s_) for s_, _ in boundary_scalings()]}
+
+
+def label_sequence_case(rng):
+    h, w = rng.randint(2, NEAR_MAX), rng.randint(2, NEAR_MAX)
+    L = rng.randint(2, 4)
+    label_values = sorted(rng.sample(range(0, 40), L))
+    # fine structure: 1-px stripes / checkerboard / random, so that a down-sampled copy differs from the original
+    kind = rng.choice(["stripes", "checker", "random"])
+    lab = [[label_values[(j if kind == "stripes" else i + j) % L] if kind != "random" else rng.choice(label_values) for j in range(w)] for i in range(h)]
+    shapes = []
+    for _ in range(rng.randint(2, 4)):
+        shapes.append(rng.choice([(h, w), (max(1, h // rng.randint(2, 4)), max(1, w // rng.randint(2, 4))), (rng.randint(1, NEAR_MAX), rng.randint(1, NEAR_MAX)),
+                                  (h * 2, w)]))
+    shapes.append((h, w))  # end at the native resolution
+    L = len({v for row in lab for v in row})  # the labels that actually occur
+    return lab, shapes, [dy(rng) for _ in range(L)], [dy(rng) for _ in range(L)]
+
+
+def run_label_sequence(d, lab, shapes, sc, of, sigs=None):
+    """one HeterogeneousLinearModel, called with signals of the given shapes in turn. Required (property): wherever the signal has
+    the shape of the label map, the result is the homogeneous LinearModel(scaling[l], offset[l]) on every labelled region of the
+    ORIGINAL labels - whatever was called before. -> None | dict"""
+    laba = np.array(lab, dtype=np.int32)
+    uniq = np.unique(laba)
+    m = call(d.HeterogeneousLinearModel, laba.copy(), scaling=[float(x) for x in sc], offset=[float(x) for x in of])
+    if isinstance(m, Raised):
+        return {"step": -1, "what": f"constructor raises {m!r}"}
+    for i, shp in enumerate(shapes):
+        sig = np.arange(shp[0] * shp[1], dtype=float).reshape(shp) / 4.0 - 2.0
+        out = call(m, sig.copy())
+        if isinstance(out, Raised) or np.asarray(out).shape != tuple(shp):
+            return {"step": i, "shape": list(shp), "what": f"call raises / wrong shape: {out!r}"[:160]}
+        if tuple(shp) == laba.shape:
+            want = np.zeros(shp)
+            for li, l in enumerate(uniq):
+                hom = d.LinearModel(scaling=float(sc[li]), offset=float(of[li]))(sig)
+                want[laba == l] = hom[laba == l]
+            if not np.array_equal(out, want):
+                bad = np.argwhere(np.asarray(out) != want)[0].tolist()
+                return {"step": i, "shape": list(shp), "what": "at the resolution of the label map the label-wise model differs from the homogeneous model of the label "
+                        "on its region (after earlier calls at other resolutions)", "pixel": bad, "observed": float(np.asarray(out)[tuple(bad)]),
+                        "required": float(want[tuple(bad)]), "label": int(laba[tuple(bad)])}
+    return None
+
+
+def oracle_label_sequences(ctx, d):
+    for _ in range(ctx.pick(40, 300)):
+        lab, shapes, sc, of = label_sequence_case(ctx.rng)
+        ctx.count(("label-seq", str(lab), str(shapes)))
+        bad = run_label_sequence(d, lab, shapes, sc, of)
+        if bad:
+            ctx.fail("C14:HeterogeneousLinearModel.__call__:call-sequence", f"call {bad['step']} of a sequence on one instance: {bad['what']}",
+                     {"label_sequence": {"labels": lab, "shapes": [list(s_) for s_ in shapes], "scaling": [str(x) for x in sc], "offset": [str(x) for x in of]}, **bad})
+
+
 def oracle_kernel(ctx, d):
     rng = np.random.default_rng(ctx.rng.randrange(2**31))
     worst_rep, worst_numba = 0.0, 0.0
@@ -1049,6 +1232,11 @@ def replay(data):
         bad, got, want, wm = check_zero_update(d, z["kind"], z["dofs"], z["zero_is_float"], z["route"])
         print(json.dumps({"call": z, "expected_models_after": wm, "observed": got, "required": want, "still_failing": bad}, indent=1, default=str))
         return 1 if bad else 0
+    if "label_sequence" in rp:
+        k = rp["label_sequence"]
+        bad = run_label_sequence(d, k["labels"], [tuple(x) for x in k["shapes"]], [Fraction(x) for x in k["scaling"]], [Fraction(x) for x in k["offset"]])
+        print(json.dumps({"sequence": k, "still_failing": bool(bad), "now": bad}, indent=1, default=str))
+        return 1 if bad else 0
     if "kernel_sequence" in rp:
         k = rp["kernel_sequence"]
         bad = run_kernel_sequence(d, k["kernel"], k["steps"], np.array(k["probe"], dtype=np.float32))
@@ -1113,7 +1301,8 @@ def run(ctx):
 
     poly, sizes = tabulate_poly(d)
     disp, subsets = tabulate_dispatch(d)
-    ctx.write_gen("SignalTables", emit(poly, sizes, disp, subsets))
+    near = tabulate_nearest()
+    ctx.write_gen("SignalTables", emit(poly, sizes, disp, subsets, near))
     ctx.cov["generated_tables"] = {"poly_degrees": len(poly), "dispatch_entries": len(disp)}
     ctx.prove("C14")
 
@@ -1142,10 +1331,12 @@ def run(ctx):
         pi.append("!raises" if isinstance(ex, Raised) or isinstance(s, Raised) else f"{s} | " + " ".join("?" if e is None else f"{e[0]} {e[1]}" for e in ex))
     ctx.correspond("poly-exponents", pl, pi)
 
+    wrapper_resize_boundary(ctx, d)
     oracle_poly(ctx, d, poly, sizes)
     oracle_models(ctx, d)
     oracle_threshold(ctx, d, thr)
     oracle_zero_updates(ctx, d)
+    oracle_label_sequences(ctx, d)
     oracle_kernel(ctx, d)
     oracle_kernel_sequences(ctx, d)
     kernel_state_correspondence(ctx, d)
